@@ -8,9 +8,9 @@ WT=/tmp/wt-mut-$$
 git -C /repo worktree add -q "$WT" HEAD || exit 2
 trap 'git -C /repo worktree remove --force "$WT" >/dev/null 2>&1' EXIT
 DEMO=$(ls $OUT/m${K}_demo_test.go 2>/dev/null)
-PKG=fhirpath
+PKG=${DEMO_PKG:-fhirpath}
 if [ -n "$DEMO" ]; then
-  if grep -q "^package system" "$DEMO"; then PKG=fhirpath/system; fi
+  if [ -z "$DEMO_PKG" ] && grep -q "^package system" "$DEMO"; then PKG=fhirpath/system; fi
   cp "$DEMO" "$WT/$PKG/zz_m${K}_demo_test.go"
   TESTS=$(grep -o "^func Test[A-Za-z0-9_]*" "$DEMO" | sed 's/func //' | paste -sd'|')
   (cd $WT && go test -vet=off -count=1 -run "^($TESTS)\$" ./$PKG/ >/tmp/mut_demo_head.log 2>&1) && echo "demo on HEAD: PASS" || echo "demo on HEAD: FAIL (unexpected)"
